@@ -141,7 +141,18 @@ def run_call(call):
         kw["max_workers"] = call["max_workers"]
     kw["decode_reid"] = bool(call.get("decode", False))
     try:
-        if call.get("glob"):
+        if call.get("rewrite"):
+            # the file at ONE path is replaced by other well-formed contents between reads (new reader each time, same interpreter)
+            import numpy as np
+            for k, words in enumerate(call["rewrite"]):
+                np.array(words, dtype="<u4").tofile(call["paths"][0])
+                if call.get("concat") and k % 2 == 1:
+                    arr = pybes3.concatenate_raw([call["paths"][0]], **kw)
+                else:
+                    with pybes3.open_raw(call["paths"][0]) as reader:
+                        arr = reader.arrays(n_blocks=-1, **kw)
+                res["values"].append(canon(arr)); res["types"].append(str(arr.type))
+        elif call.get("glob"):
             arr = pybes3.concatenate_raw(call["glob"], **kw)        # a pattern: the package lists the files itself
             res["values"].append(canon(arr)); res["types"].append(str(arr.type))
         elif len(call["paths"]) > 1 or call.get("concat"):
